@@ -369,6 +369,40 @@ func checkC07(c *Ctx) {
 			}
 		}
 	}
+	// ---- C07.14 "the phantom did not answer the liveness probe": a verdict of 'live' stops the registration, whatever comes
+	// with it (the cached-verdict sentinel is returned with live and with non-live answers alike): from the probe the
+	// admission is unreachable once the edges on which the verdict is false are taken away
+	r.Rule("C07.14", "a registration whose probe answered 'live' is never admitted, whatever error value came with the verdict", 1)
+	if f := c.fn("C07.14", lib, "RegistrationManager", "ingestRegistration"); f != nil {
+		n := 0
+		for _, l := range findDeep(f, shortIs("PhantomIsLive"), 2) {
+			if len(l.chain) > 0 {
+				continue // judged in the helper by the same rule when the helper is the root
+			}
+			probe, ok := l.call.(*ssa.Call)
+			if !ok {
+				continue
+			}
+			n++
+			vp := pathOf(probe) + "#0"
+			notLive := edgesEstablishing(f, func(cnd string, pol bool) bool { return cnd == vp && !pol })
+			isAdmit := func(in ssa.Instruction) bool {
+				ci, ok := in.(ssa.CallInstruction)
+				return ok && (calleeShort(ci.Common()) == "AddRegistration" || calleeShort(ci.Common()) == "tryShareRegistrationOverAPI")
+			}
+			slip, w := reach(f, probe, isAdmit, nil, notLive)
+			if slip {
+				r.Bad("C07.14", "ingestRegistration: admission reachable from the probe without the verdict being 'not live'", probe.Pos(), fnName(f),
+					"after the liveness probe the registration can be admitted (or shared) on a path that never established live == false - for instance because the error value that came with the verdict is looked at first: a phantom that is cached as live is validated and announced", r.blockPath(f, w)...)
+			} else {
+				r.OK("C07.14", "ingestRegistration: admission only behind live == false", probe.Pos(), "unreachable from the probe once the not-live edges are removed")
+			}
+		}
+		if n == 0 {
+			r.Unk("C07.14", "ingestRegistration: probe call", f.Pos(), fnName(f), "PhantomIsLive is not called directly by ingestRegistration")
+		}
+	}
+
 	// ---- C07.13 "marked as pre-scanned": in the message built for the peers nothing is merged over the flags after the
 	// mark was set (proto.Merge lets a field set in the source win: a client-written prescanned=false would undo it)
 	r.Rule("C07.13", "nothing is merged into the shared message's flags after the pre-scanned mark is set", 1)
